@@ -73,6 +73,9 @@ func init() {
 			obTypeTables(c, "C13.3")
 			ob5 := c.R.Ob("C13.5", "numtext/N2-machine", "no machine-integer multiplication feeds a big number and no big number is narrowed to 64 bits where numbers are read, computed or rendered", 3)
 			c.BoundedArithmeticOnNumerals(ob5, map[string]bool{relParser: true, relInterp: true, relCmd: true, "": true})
+			ob7 := c.R.Ob("C13.7", "origin/var-text", "the text of a variable reaches the per-type readers unmodified", 1)
+			c.VariableTextUnmodified(ob7)
+			obEvalReadOnly(c, "C13.8")
 			ob6 := c.R.Ob("C13.6", "origin/meta-text", "the account metadata a script writes is each value's own String() text", 1)
 			c.AccountMetaIsValueText(ob6)
 			ob := c.R.Ob("C13.4", "numtext/scale", "percentage readers (literal and variable) scale by ten to the power 2 + number of fraction digits, in exact integer arithmetic", 0)
